@@ -414,6 +414,10 @@ void NifFile::SortController(NiTimeController* controller, SortState& sortState)
 }
 
 void NifFile::SortCollision(NiObject* parent, uint32_t parentIndex, SortState& sortState) {
+	// A block that is already being sorted further up the call stack is part of a reference cycle
+	if (!sortState.collisionIndicesInProgress.insert(parentIndex).second)
+		return;
+
 	auto constraint = dynamic_cast<bhkConstraint*>(parent);
 	if (constraint) {
 		for (auto& entityId : constraint->entityRefs) {
@@ -468,6 +472,8 @@ void NifFile::SortCollision(NiObject* parent, uint32_t parentIndex, SortState& s
 				SortCollision(child, id, sortState);
 		}
 	}
+
+	sortState.collisionIndicesInProgress.erase(parentIndex);
 }
 
 void NifFile::SortShape(NiShape* shape, SortState& sortState) {
